@@ -537,6 +537,14 @@ pub proof fn lemma_eq_word_step(p: int, bk: int, ak: int, carry: int, carry2: in
     let k = q + carry2 - sa;
     assert((bk + 0x1_0000_0000 * sb_) * p + carry - (ak + 0x1_0000_0000 * sa) == (tb - ak) + 0x1_0000_0000 * k);
 }
+/// 0 < l < pt  is not a multiple of pt
+pub proof fn lemma_not_multiple(l: int, pt: int, k: int)
+    requires 0 < l < pt
+    ensures pt * k != l
+{
+    if k <= 0 { assert(pt * k <= 0) by (nonlinear_arith) requires pt > 0, k <= 0; }
+    else { assert(pt * k >= pt) by (nonlinear_arith) requires pt > 0, k >= 1; }
+}
 /// 5^k * 2^k == 10^k
 pub proof fn lemma_pow5_pow2(k: int)
     requires k >= 0
